@@ -112,11 +112,11 @@ func c16EnumValues(r *gen.R, d model.Domain, others ...[]string) []c16Val {
 
 func c16ColorValues(r *gen.R) []c16Val {
 	var out []c16Val
-	for _, n := range model.NamedColors {
+	for _, n := range model.DomNamedColors {
 		out = append(out, c16Val{n, "named"})
 	}
 	for i := 0; i < 12; i++ {
-		n := gen.Pick(r, model.NamedColors)
+		n := gen.Pick(r, model.DomNamedColors)
 		out = append(out, c16Val{strings.ToUpper(n), "named-upper"}, c16Val{r.RandCase(n), "named-mixed-case"}, c16Val{n + "x", "named-plus-suffix"}, c16Val{n[1:], "named-truncated"})
 	}
 	out = append(out,
@@ -137,7 +137,7 @@ func c16ColorValues(r *gen.R) []c16Val {
 
 func c16ThemeIDValues() []c16Val {
 	var out []c16Val
-	for _, id := range model.ThemeIDs {
+	for _, id := range model.DomThemeIDs {
 		out = append(out, c16Val{fmt.Sprint(id), "catalog-id"})
 	}
 	for _, v := range []int{2, 9, 10, 99, 106, 199, 202, 299, 304, 400, 1000, -1} {
@@ -159,26 +159,26 @@ func genC16(seed int64, tier string, emit func(run.Case)) {
 	values := func(q *gen.R, d model.Domain) []c16Val {
 		var vs []c16Val
 		switch d.Kind {
-		case model.KFloat01:
+		case model.DomKFloat01:
 			vs = append(vs, c16FloatValues...)
 			for i := 0; i < nRand; i++ {
 				vs = append(vs, c16Val{fmt.Sprintf("%.*f", q.Range(1, 6), q.Float64()*1.4-0.2), "random-decimal"})
 			}
-		case model.KInt, model.KAnyInt:
+		case model.DomKInt, model.DomKAnyInt:
 			vs = append(vs, c16IntValues(d)...)
 			for i := 0; i < nRand; i++ {
 				vs = append(vs, c16Val{fmt.Sprint(q.Range(-20, 130)), "random-integer"})
 			}
-		case model.KBool:
+		case model.DomKBool:
 			vs = append(vs, c16BoolValues...)
-		case model.KEnum:
-			vs = append(vs, c16EnumValues(q, d, model.Shapes, model.ArrowheadShapes, model.FillPatterns, model.TextTransforms, model.Directions, model.Fonts)...)
-		case model.KColor, model.KThemeColor:
+		case model.DomKEnum:
+			vs = append(vs, c16EnumValues(q, d, model.DomShapes, model.DomArrowheadShapes, model.DomFillPatterns, model.DomTextTransforms, model.DomDirections, model.DomFonts)...)
+		case model.DomKColor, model.DomKThemeColor:
 			vs = append(vs, c16ColorValues(q)...)
 			for i := 0; i < nRand; i++ {
 				vs = append(vs, c16Val{fmt.Sprintf("#%0*x", q.Range(1, 9), q.Intn(1<<24)), "random-hex"})
 			}
-		case model.KThemeID:
+		case model.DomKThemeID:
 			vs = append(vs, c16ThemeIDValues()...)
 			for i := 0; i < nRand; i++ {
 				vs = append(vs, c16Val{fmt.Sprint(q.Range(0, 320)), "random-id"})
@@ -205,14 +205,14 @@ func genC16(seed int64, tier string, emit func(run.Case)) {
 			}
 		}
 	}
-	each("object", model.StyleDomains)
-	each("edge", model.StyleDomains)
-	each("arrowhead", model.StyleDomains)
-	each("object", model.ObjectDomains)
-	each("arrowhead", model.ArrowheadDomains)
-	each("config", model.ConfigDomains)
-	for _, code := range model.ThemeCodes {
-		d := model.ThemeOverrideDomain
+	each("object", model.DomStyle)
+	each("edge", model.DomStyle)
+	each("arrowhead", model.DomStyle)
+	each("object", model.DomObject)
+	each("arrowhead", model.DomArrowhead)
+	each("config", model.DomConfig)
+	for _, code := range model.DomThemeCodes {
+		d := model.DomThemeOverride
 		d.Keyword = code
 		k++
 		for _, v := range values(r.Sub(k), d) {
@@ -259,7 +259,7 @@ func c16Program(in c16In) (text string, valueOff int) {
 	switch in.Ctx {
 	case "object":
 		styleKW := false
-		for _, d := range model.StyleDomains {
+		for _, d := range model.DomStyle {
 			if d.Keyword == in.KW {
 				styleKW = true
 			}
@@ -292,15 +292,15 @@ func c16Domain(in c16In) (model.Domain, bool) {
 	var ds []model.Domain
 	switch in.Ctx {
 	case "object":
-		ds = append(append(ds, model.StyleDomains...), model.ObjectDomains...)
+		ds = append(append(ds, model.DomStyle...), model.DomObject...)
 	case "edge":
-		ds = model.StyleDomains
+		ds = model.DomStyle
 	case "arrowhead":
-		ds = append(append(ds, model.ArrowheadDomains...), model.StyleDomains...)
+		ds = append(append(ds, model.DomArrowhead...), model.DomStyle...)
 	case "config":
-		ds = model.ConfigDomains
+		ds = model.DomConfig
 	case "override":
-		d := model.ThemeOverrideDomain
+		d := model.DomThemeOverride
 		d.Keyword = in.KW
 		return d, true
 	}
@@ -411,7 +411,7 @@ func execC16(c run.Case) (res run.Result) {
 		class = "nan"
 	}
 	who := in.KW + ":" + class + ":" + in.Ctx
-	if verdict == model.Unspecified {
+	if verdict == model.DomUnspecified {
 		res.Inc("vacuous_unspecified")
 		if err == nil {
 			res.Inc("unspecified_accepted")
@@ -422,12 +422,12 @@ func execC16(c run.Case) (res run.Result) {
 	}
 	res.Nontrivial = true
 	switch {
-	case verdict == model.In && err != nil:
+	case verdict == model.DomIn && err != nil:
 		res.Viol("C16.rejects-in-domain", "C16.rejects-in-domain:"+who, fmt.Sprintf("%s %s: value %q is in the documented domain (%s) but compilation failed: %v\nprogram:\n%s", in.Ctx, in.KW, in.Value, d.Doc, err, text))
-	case verdict == model.Out && err == nil:
+	case verdict == model.DomOut && err == nil:
 		got, _ := c16Compiled(in, g, jsonMap(cfg))
 		res.Viol("C16.accepts-out-of-domain", "C16.accepts-out-of-domain:"+who, fmt.Sprintf("%s %s: value %q is outside the documented domain (%s) but was accepted (compiled value %q)\nprogram:\n%s", in.Ctx, in.KW, in.Value, d.Doc, got, text))
-	case verdict == model.In:
+	case verdict == model.DomIn:
 		res.Inc("accepted_in_domain")
 		got, found := c16Compiled(in, g, jsonMap(cfg))
 		want := in.Value
@@ -435,7 +435,7 @@ func execC16(c run.Case) (res run.Result) {
 		if d.KeywordValued {
 			same = strings.EqualFold(got, want)
 		}
-		if in.Ctx == "config" && (d.Kind == model.KBool || d.Kind == model.KThemeID || d.Kind == model.KAnyInt) {
+		if in.Ctx == "config" && (d.Kind == model.DomKBool || d.Kind == model.DomKThemeID || d.Kind == model.DomKAnyInt) {
 			same = got == want // typed config: canonical decimal / true|false print identically
 		}
 		if !found {
